@@ -17,7 +17,7 @@ LEVEL_NOTE = ("Bounds: (1) all catalogued classes, MRO depth as in the source; (
               "plus priming of classes outside the MRO (sibling, unrelated kit class, a second user class with the same "
               "__name__); "
               "record with a unique generic occurrence. Classes outside K's MRO cannot influence attribute lookup on K (Python "
-              "semantics). 'Fresh interpreter' is replaced by 'cleared cache state'. Bio.Restriction's class-level scratch "
+              "semantics). In obligations (1)-(2) 'fresh interpreter' is represented by the cleared cache state; the fresh-interpreter obligations compare with one directly. Bio.Restriction's class-level scratch "
               "attributes are outside the model. Trusted: z3, CPython, symx models.")
 LEVEL_NOTE_EXTRA = 'instance level: an entity of the same class is typed first and kept alive (same letters with other topology, or another plasmid under the same id) and the answers are compared with an independent twin class. Also: Cls.characterize on two identical just-declared types (asked first / after other validations); the same query in a fresh interpreter (fresh module copy per path / new process) after a history that includes a record declared linear, also asked twice with room for a further site.'
 TECHNIQUE = "bounded symbolic execution of the real Python source (symx) with z3; inductive step over symbolic cache states + differential run primed vs cleared; replay on the real stack"
